@@ -87,6 +87,28 @@ package shellfuncsfile
 //@     invariant converting: nSortP == 1 && nSortN == 1 && nCompact == 1 && !lastConvOK
 //@   ensures sorted_and_deduplicated: imp(err == nil, nSortP == 1 && nSortN == 1 && nCompact == 1)
 
+// from: one source; a directory goes through fromDirectory, a regular file
+// through fromSingleFile, anything else is refused; the converted bytes are
+// returned as they are.
+//@ func Converter.from(c, source) (res, err)
+//@   props C17
+//@   ghost nStat int = 0
+//@   ghost info fs.FileInfo = nil
+//@   ghost isDir bool = false
+//@   ghost isReg bool = false
+//@   ghost out []byte = nil
+//@   ghost ok bool = false
+//@   ghost nConv int = 0
+//@   on call os.Stat(n) (i, e): assert(c.FS == nil && n == source && nStat == 0, "the_source_itself_is_examined"); info = i; nStat++
+//@   on call fs.Stat(f, n) (i, e): assert(c.FS != nil && f == c.FS && n == source && nStat == 0, "the_source_itself_is_examined"); info = i; nStat++
+//@   on call fs.FileInfo.IsDir(i) (r): assert(i == info && nStat == 1, "type_of_the_source"); isDir = r
+//@   on call fs.FileMode.IsRegular(m) (r): assert(m == info.Mode(), "type_of_the_source"); isReg = r
+//@   on call Converter.fromDirectory(cc, s) (b, e): assert(cc == c && s == source && isDir && nConv == 0, "directories_are_converted_as_directories"); out = b; ok = e == nil; nConv++
+//@   on call Converter.fromSingleFile(cc, s) (b, e): assert(cc == c && s == source && !isDir && isReg && nConv == 0, "regular_files_are_converted_as_single_files"); out = b; ok = e == nil; nConv++
+//@   ensures converted_bytes_returned_unchanged: imp(err == nil, nConv == 1 && ok && res == out)
+//@   ensures failure_has_no_bytes: imp(err != nil, len(res) == 0)
+//@   ensures conversion_failure_is_reported: imp(nConv == 1 && !ok, err != nil)
+
 // From: sources concatenated in the order given; the listing function is
 // generated from everything before it.
 //@ func Converter.From(c, sources) (res, err)
